@@ -20,6 +20,7 @@ import (
 	"encoding/binary"
 	"errors"
 	"fmt"
+	"os"
 	"strconv"
 	"strings"
 	"sync"
@@ -375,6 +376,7 @@ type c12Cluster struct {
 	// RaftOptions under test
 	maxApplying int
 	checkQuorum bool
+	compactAt   uint64
 }
 
 var c12NodeIDs = []multiraft.NodeID{1, 2, 3}
@@ -394,7 +396,7 @@ func (c *c12Cluster) newRuntime(id multiraft.NodeID) *multiraft.Runtime {
 			PreVote:       true,
 			CheckQuorum:   c.checkQuorum,
 			MaxApplyingTasks: c.maxApplying,
-			LogCompaction: multiraft.LogCompactionConfig{Enabled: true, EnabledSet: true, TriggerEntries: 6, CheckInterval: time.Millisecond},
+			LogCompaction: multiraft.LogCompactionConfig{Enabled: true, EnabledSet: true, TriggerEntries: c.compactAt, CheckInterval: time.Millisecond},
 		},
 	})
 	if err != nil {
@@ -471,6 +473,7 @@ func c12Run(seed uint64, proposals int, profile string) string {
 		trace:       &c12Trace{},
 		tick:        4 * time.Millisecond,
 		checkQuorum: true,
+		compactAt:   6,
 	}
 	slowEvery := uint64(0)
 	switch profile {
@@ -481,6 +484,7 @@ func c12Run(seed uint64, proposals int, profile string) string {
 	case "stalefuture": // directed: see c12StaleFuture
 		c.net.drop, c.net.dup, c.net.maxMS = 0, 0, 1
 		c.checkQuorum = false
+		c.compactAt = 100000 // the old leader must catch up by log entries, not by a snapshot
 	}
 	switch profile {
 	case "backpressure", "stalefuture":
@@ -675,6 +679,9 @@ func c12ProposeOn(rt *multiraft.Runtime, s multiraft.SlotID, nextID *uint64, fut
 		case errors.Is(err, context.DeadlineExceeded):
 			*futs = append(*futs, fmt.Sprintf("F%d.%d:timeout", s, id))
 		default:
+			if os.Getenv("C12_DEBUG") != "" {
+				fmt.Fprintf(os.Stderr, "DEBUG future %d err=%v\n", id, err)
+			}
 			*futs = append(*futs, fmt.Sprintf("F%d.%d:err", s, id))
 		}
 	}()
@@ -717,7 +724,12 @@ func c12StaleFuture(c *c12Cluster, r *Rand, nextID *uint64, futs *[]string, fmu 
 	c.net.mu.Unlock()
 	k := r.Range(3, 5)
 	for i := 0; i < k; i++ { // tracked on the isolated leader, can never commit there
-		c12ProposeOn(oldRT, s, nextID, futs, fmu, fwg, 3500*time.Millisecond)
+		c12ProposeOn(oldRT, s, nextID, futs, fmu, fwg, 5500*time.Millisecond)
+	}
+	if os.Getenv("C12_DEBUG") != "" {
+		time.Sleep(50 * time.Millisecond)
+		sub, pend, role := multiraft.VerifPendingFutures(oldRT, s)
+		fmt.Fprintf(os.Stderr, "DEBUG isolated: submitted=%d pending=%d role=%v\n", sub, pend, role)
 	}
 	// the majority elects a new leader
 	var newRT *multiraft.Runtime
@@ -754,6 +766,12 @@ func c12StaleFuture(c *c12Cluster, r *Rand, nextID *uint64, futs *[]string, fmu 
 	c.net.mu.Lock()
 	c.net.blocked = map[[2]multiraft.NodeID]bool{}
 	c.net.mu.Unlock()
+	if os.Getenv("C12_DEBUG") != "" {
+		time.Sleep(400 * time.Millisecond)
+		st, err := oldRT.Status(s)
+		sub, pend, role := multiraft.VerifPendingFutures(oldRT, s)
+		fmt.Fprintf(os.Stderr, "DEBUG old=%d role=%v term=%d commit=%d applied=%d err=%v submitted=%d pending=%d role=%v\n", old, st.Role, st.Term, st.CommitIndex, st.AppliedIndex, err, sub, pend, role)
+	}
 }
 
 func c12Propose(c *c12Cluster, r *Rand, nextID *uint64, futs *[]string, fmu *sync.Mutex, fwg *sync.WaitGroup) {
